@@ -7,6 +7,8 @@ import (
 	"fmt"
 	"math"
 	"sort"
+	"strings"
+	"sync"
 
 	"github.com/fluhus/biostuff/align"
 	"pgregory.net/rapid"
@@ -60,6 +62,55 @@ var shippedMatrices = map[string]func() align.SubstitutionMatrix{
 	"BLOSUM45":    func() align.SubstitutionMatrix { return align.BLOSUM45 },
 	"BLOSUM62":    func() align.SubstitutionMatrix { return align.BLOSUM62 },
 	"BLOSUM80":    func() align.SubstitutionMatrix { return align.BLOSUM80 },
+}
+
+// Full 256x256-byte matrices of the caller's own that are built like Levenshtein (zero diagonal,
+// -1 per gap, -1 for most substitutions, gap-open 0) but score some substitutions differently:
+// a case-insensitive edit distance, and edit costs in which a letter against a digit costs 3 and
+// a vowel against a vowel nothing. They are not shipped tables and not in shippedNames.
+var levLikeOnce = map[string]align.SubstitutionMatrix{}
+var levLikeMu sync.Mutex
+
+func levLike(kind string) align.SubstitutionMatrix {
+	levLikeMu.Lock()
+	defer levLikeMu.Unlock()
+	if m, ok := levLikeOnce[kind]; ok {
+		return m
+	}
+	m := align.SubstitutionMatrix{}
+	for k, v := range align.Levenshtein {
+		m[k] = v
+	}
+	isDigit := func(c byte) bool { return c >= '0' && c <= '9' }
+	isLetter := func(c byte) bool { return c|0x20 >= 'a' && c|0x20 <= 'z' }
+	isVowel := func(c byte) bool { return isLetter(c) && strings.IndexByte("aeiou", c|0x20) >= 0 }
+	for x := 0; x < 255; x++ {
+		for y := 0; y < 255; y++ {
+			a, b := byte(x), byte(y)
+			if a == b {
+				continue
+			}
+			switch kind {
+			case "LevCaseInsensitive":
+				if isLetter(a) && isLetter(b) && a|0x20 == b|0x20 {
+					m[[2]byte{a, b}] = 0
+				}
+			case "LevWeighted":
+				if isLetter(a) && isDigit(b) || isDigit(a) && isLetter(b) {
+					m[[2]byte{a, b}] = -3
+				} else if isVowel(a) && isVowel(b) {
+					m[[2]byte{a, b}] = 0
+				}
+			}
+		}
+	}
+	levLikeOnce[kind] = m
+	return m
+}
+
+func init() {
+	shippedMatrices["LevCaseInsensitive"] = func() align.SubstitutionMatrix { return levLike("LevCaseInsensitive") }
+	shippedMatrices["LevWeighted"] = func() align.SubstitutionMatrix { return levLike("LevWeighted") }
 }
 
 var shippedNames = []string{"Levenshtein", "PAM120", "PAM160", "PAM250", "BLOSUM45", "BLOSUM62", "BLOSUM80"}
@@ -135,7 +186,7 @@ func (s MatSpec) letters() []byte {
 	if s.Named == "" {
 		return s.Letters
 	}
-	if s.Named == "Levenshtein" {
+	if strings.HasPrefix(s.Named, "Lev") {
 		out := make([]byte, 255)
 		for i := range out {
 			out[i] = byte(i)
@@ -303,6 +354,102 @@ type AlignCase struct {
 	Mutate *MatMutation `json:"mutate,omitempty"`
 	// SameSlice: the very same slice is passed as both sequences (B is ignored and taken to be A).
 	SameSlice bool `json:"same_slice,omitempty"`
+	// Light: a megabase-cell case; only the call itself is checked (no swapped, repeated,
+	// self-aligned or refilled calls).
+	Light bool `json:"light,omitempty"`
+}
+
+// runAlignOn calls Global or Local on the caller's own two slices (which hold c.A and c.B).
+func runAlignOn(c AlignCase, a, b []byte, m align.SubstitutionMatrix) (alignResult, error) {
+	var res alignResult
+	var steps []align.Step
+	name := "Global"
+	if c.Local {
+		name = "Local"
+	}
+	p := catch(func() {
+		if c.Local {
+			steps, res.ai, res.bi, res.score = align.Local(a, b, m)
+		} else {
+			steps, res.score = align.Global(a, b, m)
+		}
+	})
+	if p != nil {
+		return res, fmt.Errorf("%s(%q,%q) panicked: %v", name, []byte(c.A), []byte(c.B), p)
+	}
+	if !bytes.Equal(a, c.A) || !bytes.Equal(b, c.B) {
+		return res, fmt.Errorf("%s modified its input sequences", name)
+	}
+	res.steps = make([]byte, len(steps))
+	for i, s := range steps {
+		res.steps[i] = byte(s)
+	}
+	res.raw = steps
+	return res, nil
+}
+
+// megaAlignCases: pairs whose table has more than 2^20 cells, with one long gap run across the
+// middle of a or of b (a locus against an allele with a 200-base deletion), and pairs around
+// lengths of 255/256/257, 511/512/513 and 767/768/769 where one sequence has a few extra
+// leading or trailing residues.
+func megaAlignCases(opens []int, quick bool, emit func(AlignCase) bool) bool {
+	dna := func(match, mismatch, gap, open int) MatSpec {
+		m := MatSpec{Letters: gen.B("ACGT"), DelGap: []int{gap, gap, gap, gap}, InsGap: []int{gap, gap, gap, gap}, Open: open}
+		for i := 0; i < 4; i++ {
+			row := []int{mismatch, mismatch, mismatch, mismatch}
+			row[i] = match
+			m.Pair = append(m.Pair, row)
+		}
+		return m
+	}
+	for _, open := range opens {
+		a := realDNA(1300, 71, false, false)
+		b := append(bytes.Clone(a[:550]), a[750:]...)
+		c := append(bytes.Clone(a[:640]), a[661:]...)
+		c[100], c[700], c[1200] = 'A'+'C'-c[100]&1, 'G', 'T'
+		for _, pr := range [][2][]byte{{a, b}, {b, a}, {a, c}} {
+			for _, local := range []bool{false, true} {
+				if !emit(AlignCase{A: pr[0], B: pr[1], M: dna(1, -4, -1, open), Local: local, Light: true}) {
+					return false
+				}
+			}
+			if quick {
+				break
+			}
+		}
+		for _, n := range []int{255, 256, 257, 511, 512, 513, 767, 768, 769} {
+			x := realDNA(n, 90+n%7, false, false)
+			for v, y := range [][]byte{append([]byte("GAT"), x...), append(bytes.Clone(x), 'T', 'C')} {
+				_ = v
+				for _, local := range []bool{false, true} {
+					if !emit(AlignCase{A: y, B: x, M: dna(1, -4, -1, open), Local: local, Light: true}) || !emit(AlignCase{A: x, B: y, M: dna(2, -3, -2, open), Local: local, Light: true}) {
+						return false
+					}
+					if open == 0 && !local && !emit(AlignCase{A: y, B: x, M: MatSpec{Named: "Levenshtein"}, Light: true}) {
+						return false
+					}
+				}
+			}
+		}
+	}
+	return true
+}
+
+// levLikeCases: the caller's own full-byte matrices that resemble Levenshtein.
+func levLikeCases(emit func(AlignCase) bool) bool {
+	words := []string{"", "a", "A", "Kitten", "sITTing", "kitten", "flaw", "LAWN", "b4d", "bad", "a1b2c3", "abcabc", "AEIOU", "uoiea", "x9", "9x", "Saturday", "sunday", "\x00\xfeA", "aA"}
+	for _, name := range []string{"LevCaseInsensitive", "LevWeighted"} {
+		for _, a := range words {
+			for _, b := range words {
+				for _, local := range []bool{false, true} {
+					if !emit(AlignCase{A: gen.B(a), B: gen.B(b), M: MatSpec{Named: name}, Local: local}) {
+						return false
+					}
+				}
+			}
+		}
+	}
+	return true
 }
 
 func genMatMutation(t *rapid.T, s MatSpec) *MatMutation {
